@@ -70,6 +70,28 @@ MUTANTS = {
                               "    for key, value in kwargs.items():\n        __context__[key] = value\n",
                               "    for key, value in kwargs.items():\n"
                               "        (__context__.parent or __context__)[key] = value\n"),
+    'M10c-statement-caches-converted-data': (X, "            if self.engine.options.get('yaql.convertInputData', True):\n"
+                                                "                context['$'] = utils.convert_input_data(data)\n",
+                                             "            if self.engine.options.get('yaql.convertInputData', True):\n"
+                                             "                if getattr(self, '_last', (None,))[0] is not data:\n"
+                                             "                    self._last = (data, utils.convert_input_data(data))\n"
+                                             "                context['$'] = self._last[1]\n"),
+    'M14-no-child-context-per-call': ('yaql/language/specs.py', "            new_context = context.create_child_context()\n",
+                                      "            new_context = context\n"),
+    'M15-yaql-eval-shares-default-context': ('yaql/__init__.py',
+                                             "        data=data, context=_default_context.create_child_context())",
+                                             "        data=data, context=_default_context)"),
+    'M16-convert_output-dict-passthrough': (U, "    if isinstance(obj, collections.abc.Mapping):\n        result = {}\n",
+                                            "    if isinstance(obj, dict) and all(\n"
+                                            "            isinstance(v, (str, int, float, bool, type(None))) for v in obj.values()):\n"
+                                            "        return obj\n"
+                                            "    if isinstance(obj, collections.abc.Mapping):\n        result = {}\n"),
+    'M17-def-registers-on-parent': ('yaql/standard_library/system.py', "    context.register_function(wrapper)\n    return context\n",
+                                    "    (context.parent or context).register_function(wrapper)\n    return context\n"),
+    'M18-distinct-sorts-argument': (Q, "    distinct_values = set()\n    for t in collection:",
+                                    "    if isinstance(collection, list):\n"
+                                    "        try:\n            collection.sort()\n        except TypeError:\n            pass\n"
+                                    "    distinct_values = set()\n    for t in collection:"),
 }
 EXTRA = {
     'M10a-len-global-cache': (Q, "    count = 0\n    for t in collection:\n        count += 1\n    return count",
